@@ -49,6 +49,8 @@ pub enum Act {
     DropStream(usize),
     HoldStream(usize),
     ReleaseStream(usize),
+    /// the stream of subscribe op i is passed to another task: polled under a new waker from now on
+    HandoverStream(usize),
     Term(TermAct),
     /// after run() ended on a cause: connect the same Context again (0 = session resumed, 1 = resumed under Receive
     /// Maximum 2, 2 = long after the disconnection, 3 = without a recorded disconnection) and run
@@ -84,6 +86,7 @@ pub struct Alpha {
     pub stray: Vec<(AckKind, u16)>,
     pub streams: bool,
     pub stream_holds: bool,
+    pub stream_handover: bool,
     pub terms: Vec<TermAct>,
     pub drop_ctx: bool,
     pub after_drop_kinds: Vec<Kind>,
@@ -116,6 +119,7 @@ impl Default for Alpha {
             stray: vec![],
             streams: false,
             stream_holds: false,
+            stream_handover: false,
             terms: vec![],
             drop_ctx: false,
             after_drop_kinds: vec![],
@@ -227,6 +231,13 @@ pub fn enabled(w: &World, a: &Alpha) -> Vec<Act> {
                 if w.m[i].stream.is_some() || w.sim.ops[i].rsp.is_some() {
                     if a.drops {
                         v.push(Act::DropStream(i));
+                    }
+                }
+                if a.stream_handover {
+                    if let Some(s) = w.m[i].stream {
+                        if !w.sim.streams[s].held && w.sim.streams[s].stream.is_some() {
+                            v.push(Act::HandoverStream(i));
+                        }
                     }
                 }
                 if a.stream_holds {
@@ -391,6 +402,11 @@ pub fn apply(w: &mut World, act: Act) {
             w.take_stream(i);
         }
         Act::DropStream(i) => w.drop_stream(i),
+        Act::HandoverStream(i) => {
+            if let Some(s) = w.m[i].stream {
+                w.sim.handover_stream(s);
+            }
+        }
         Act::HoldStream(i) => {
             if let Some(s) = w.m[i].stream {
                 w.sim.streams[s].held = true;
